@@ -94,7 +94,9 @@ def handle (op : String) (args : List String) (impl : String) : Option Verdict :
     let ms := processStream decode r (idx.map (·.1))
     let out := joinOr ((ms.map showMsg).mergeSort (fun a b => a ≤ b)) ";"
     -- property on the implementation's output: every delivered message is attributed to the authenticated remote peer
-    let ok := (items impl ";").all fun it => (it.splitOn ":").headD "" == toString r
+    -- … and nothing is invented: each delivered message is the decoding of one of the received lines (stream_no_invention)
+    let decodings := (ls.filter (·.kind = "ok")).map fun l => showMsg ⟨l.wire, r⟩
+    let ok := (items impl ";").all fun it => (it.splitOn ":").headD "" == toString r && decodings.contains it
     return ⟨out, ok && impl != "panic" && impl != "hang", s!"attr:n={min ls.length 3}:delivered={min ms.length 3}:allok={ls.all (·.kind = "ok")}"⟩
   | "refreshseq", [init, evs] => some <| Id.run do
     let some t0 := parseTopo init | return bad
@@ -129,9 +131,13 @@ def handle (op : String) (args : List String) (impl : String) : Option Verdict :
       let mut good := true
       for (x, o) in parsed.zip implSteps do
         match o.splitOn "|" with
-        | _ :: rest =>
+        | o :: rest =>
           match parseSt rest with
           | some st' =>
+            let mayPanic :=
+              if x.1 then (match provider (envOf x.2.1) "" x.2.2.fetched with | .panic => true | _ => false)
+              else (refresh (envOf x.2.1) prev x.2.2).2 == .panic
+            good := good && (o == "done" || (o == "panic" && mayPanic))
             if x.1 then
               good := good && st' == prev
             else
@@ -149,6 +155,30 @@ def handle (op : String) (args : List String) (impl : String) : Option Verdict :
     let m := if re = "1" then (if after then "delivered:0,delivered:0" else "delivered:0,refused") else "delivered:0,delivered:0"
     let ok := if re = "1" then impl == "delivered:0,refused" || impl == "refused,refused" else impl == m
     return ⟨m, ok, s!"stale(observation):reconnect={re}"⟩
+  | "refresh2", [init, evA, evB] => some <| Id.run do
+    let some t0 := parseTopo init | return bad
+    let parseEv := fun (e : String) =>
+      match e.splitOn "~" with
+      | [hashes, body, oracle, storeOk] => do
+        let orc ← parseOracle oracle
+        let hs : Option (List String) :=
+          if hashes = "x" then none else some ((items hashes ",").map fun h => if h = "E" then "" else h)
+        let fetched ← (if body = "x" then some Fetched.error else (fromHex body).map Fetched.body)
+        some ((⟨Sha256.sha256, id, fun _ => orc⟩ : Env), (⟨hs, fetched, storeOk = "1"⟩ : Ev))
+      | _ => none
+    let some (envA, a) := parseEv evA | return bad
+    let some (envB, b) := parseEv evB | return bad
+    let st0 := adopt t0
+    -- the schedule the harness forces: A's store and gate, all of B, then A's peerstore load
+    let wa := writesOf envA a
+    let wb := writesOf envB b
+    let st1 := applyWrites st0 (wa.take 2 ++ wb ++ wa.drop 2)
+    -- property (interleaved_components_announced): each component is the initial one or an announced topology's
+    let cands := st0 :: ([adoptable envA a, adoptable envB b].filterMap (·.map adopt))
+    let ok := match parseSt (impl.splitOn "|") with
+      | some st' => cands.any (·.stored == st'.stored) && cands.any (·.gate == st'.gate) && cands.any (·.pstore == st'.pstore)
+      | none => false
+    return ⟨showSt st1, ok, s!"refresh2:A={(adoptable envA a).isSome}:B={(adoptable envB b).isSome}:split={st1.gate != st1.pstore}"⟩
   | "cli", [t] => some <| Id.run do
     let some topo := parseTopo t | return bad
     let m := "ok:" ++ showNats topo.peers ++ "/" ++ toString topo.threshold
@@ -174,9 +204,10 @@ def handle (op : String) (args : List String) (impl : String) : Option Verdict :
     let ev : Ev := ⟨hs, fetched, sOk⟩
     let (st1, oc) := refresh env st0 ev
     let m := (match oc with | .done => "done" | .panic => "panic") ++ "|" ++ showSt st1
+    -- a panic is acceptable only where the model says the code panics (announced ciphertext shorter than an AES block)
     let ok := match impl.splitOn "|" with
-      | _ :: rest => match parseSt rest with
-        | some st' => decide (RefreshOk env st0 ev st')
+      | o :: rest => match parseSt rest with
+        | some st' => decide (RefreshOk env st0 ev st') && (o == "done" || (o == "panic" && oc == .panic))
         | none => false
       | _ => false
     let why :=
